@@ -384,6 +384,17 @@ def check_scenario(sc, obs, add):
         check_op(sc, obs, opi, add)
         check_failure_op(sc, obs, opi, add, latency_bound=sc.get('latency_bound'))
         check_apply_op(sc, obs, opi, add)
+    # a worker id is never held by two instances that are alive at the same time (instance life = start .. finished/killed)
+    by_role = collections.defaultdict(list)
+    for role, a, b in obs.get('lifetimes') or []:
+        if a is not None:
+            by_role[role].append((a, b))
+    for role, ivs in by_role.items():
+        ivs.sort()
+        for (a0, a1), (b0, b1) in zip(ivs, ivs[1:]):
+            if a1 is None or b0 < a1:
+                add('C13', 'one_live_instance_per_id', {'id': role, 'first_instance_steps': [a0, a1], 'next_instance_started_at_step': b0})
+                break
     if obs.get('procs_alive'):
         add('C05', 'no_worker_process_alive_after_exit', {'alive': obs['procs_alive'][:8]})
     if obs.get('alive_at_exit'):
